@@ -215,7 +215,12 @@ fn run_site(ki: usize, site: usize, msg: Vec<u8>, hs: Option<u64>, st: &mut Stat
         if e.msg != msg {
             return Err(Violation::new("wrong-message", format!("{} / {}: message of {} bytes arrived as {} bytes", name, SITES[site], msg.len(), e.msg.len())));
         }
-        // second opinion on the raw ERR packet
+        // second opinion on the raw ERR packet (a message that needs continuation packets is
+        // left to the strict decoder, which reassembles)
+        if msg.len() + 9 >= MAXP {
+            st.bump("error_messages_beyond_one_packet");
+            return Ok(());
+        }
         let pkts = split_packets(&o.sim.out).unwrap();
         let raw = pkts.iter().map(|p| &o.sim.out[p.start..p.start + p.len]).filter(|m| m.first() == Some(&0xff)).last().unwrap();
         let (c2_, s2, m2_) = second::err(raw).map_err(|e| Violation::new("second-opinion", e))?;
@@ -306,6 +311,32 @@ impl Family for ReportedThenFailed {
 }
 
 /// table-level checks: conversions both ways, golden table, independent code table, anchors
+/// messages that make the ERR payload (9 bytes of code, marker and SQLSTATE in front of the
+/// message) end exactly at, just below and beyond the packet limit of 2^24-1 bytes, at five sites
+struct HugeMessages {
+    lens: Vec<usize>,
+}
+const HUGE_SITES: [usize; 5] = [0, 2, 3, 7, 10];
+impl Family for HugeMessages {
+    fn name(&self) -> String {
+        "error-messages-around-the-packet-limit".into()
+    }
+    fn len(&self) -> u64 {
+        (self.lens.len() * HUGE_SITES.len()) as u64
+    }
+    fn run(&self, idx: u64, st: &mut Stats) -> Result<(), Violation> {
+        let d = digits(idx, &[self.lens.len() as u64, HUGE_SITES.len() as u64]);
+        st.nontrivial += 1;
+        let n = self.lens[d[0] as usize];
+        let msg: Vec<u8> = (0..n).map(|i| b'a' + (i % 23) as u8).collect();
+        run_site(KINDS.len() / 2, HUGE_SITES[d[1] as usize], msg, None, st)
+    }
+    fn describe(&self, idx: u64) -> J {
+        let d = digits(idx, &[self.lens.len() as u64, HUGE_SITES.len() as u64]);
+        json!({"kind": KINDS[KINDS.len() / 2].0, "site": SITES[HUGE_SITES[d[1] as usize]], "message_len": self.lens[d[0] as usize], "err_payload_len": self.lens[d[0] as usize] + 9})
+    }
+}
+
 struct Tables;
 impl Family for Tables {
     fn name(&self) -> String {
@@ -389,7 +420,7 @@ pub fn build(quick: bool) -> Check {
     Check {
         id: "C13",
         level: "model_checking",
-        rule: format!("every ErrorKind variant of the tree under test ({} variants, list regenerated by build.rs) x 13 reporting sites (init via COM_INIT_DB and USE, prepare, query error fresh / after complete_one / after finish_one, finish_error after 0 rows / rows / a complete unended row in text mode, binary finish_error after 0 rows / rows, binary error after finish_one, query error after a served SET NAMES latin1 statement) x message classes (empty, 1 byte, 512 bytes, 5000 bytes, 70000 bytes in thorough, invalid UTF-8, leading '#', embedded NUL, leading 0xFF, valid UTF-8 with all characters below U+0100, valid UTF-8 with wider characters), each followed by a sentinel PING; every 97th (thorough: every) kind x all sites x 6 messages (up to 70000 bytes, beyond the max_packet_size these clients announce) again for clients that answered the greeting with the pre-4.1 layout, with CLIENT_PROTOCOL_41 alone and a latin1 collation, and with libmysqlclient's full set (db, plugin, attributes). Every 53rd (thorough: 7th) kind x all sites x 4 messages again with the reporting callback returning Err afterwards: the ERR must still have been delivered and run_on returns the callback's error. Oracle: the decoded ERR carries (kind as u16, kind.sqlstate(), message bytes) and mysql_common reads the same; per variant: code <-> kind both ways, (name, code, SQLSTATE) equal the pinned golden table, codes equal the mysql client crate's independent table, 46 documented (code, SQLSTATE) anchors.", KINDS.len()),
+        rule: format!("messages that make the ERR payload end exactly at, just below and beyond the packet limit of 2^24-1 bytes at five sites; every ErrorKind variant of the tree under test ({} variants, list regenerated by build.rs) x 13 reporting sites (init via COM_INIT_DB and USE, prepare, query error fresh / after complete_one / after finish_one, finish_error after 0 rows / rows / a complete unended row in text mode, binary finish_error after 0 rows / rows, binary error after finish_one, query error after a served SET NAMES latin1 statement) x message classes (empty, 1 byte, 512 bytes, 5000 bytes, 70000 bytes in thorough, invalid UTF-8, leading '#', embedded NUL, leading 0xFF, valid UTF-8 with all characters below U+0100, valid UTF-8 with wider characters), each followed by a sentinel PING; every 97th (thorough: every) kind x all sites x 6 messages (up to 70000 bytes, beyond the max_packet_size these clients announce) again for clients that answered the greeting with the pre-4.1 layout, with CLIENT_PROTOCOL_41 alone and a latin1 collation, and with libmysqlclient's full set (db, plugin, attributes). Every 53rd (thorough: 7th) kind x all sites x 4 messages again with the reporting callback returning Err afterwards: the ERR must still have been delivered and run_on returns the callback's error. Oracle: the decoded ERR carries (kind as u16, kind.sqlstate(), message bytes) and mysql_common reads the same; per variant: code <-> kind both ways, (name, code, SQLSTATE) equal the pinned golden table, codes equal the mysql client crate's independent table, 46 documented (code, SQLSTATE) anchors.", KINDS.len()),
         assumptions: vec![
             "trusted base for SQLSTATEs beyond the 46 anchors: the table pinned in /verif/data equals MariaDB's published one (as the generator comment in errorcodes.rs states); variants added later are checked for self-consistency only".into(),
         ],
@@ -402,9 +433,10 @@ pub fn build(quick: bool) -> Check {
             Box::new(ReportedThenFailed { kinds: (0..KINDS.len()).step_by(if quick { 53 } else { 7 }).collect(), msgs: vec![vec![], b"denied".to_vec(), vec![b'm'; 600], vec![b'L'; 70_000]] }),
             Box::new(AtEverySequenceId::new(quick)),
             Box::new(super::c18::TlsErrors::new(quick)),
+            Box::new(HugeMessages { lens: if quick { vec![MAXP - 10, MAXP - 9, MAXP - 8] } else { vec![MAXP - 11, MAXP - 10, MAXP - 9, MAXP - 8, MAXP, MAXP + 1, 2 * MAXP - 9] } }),
             Box::new(Tables),
             Box::new(super::aftermath::Aftermath { prop: "C13" }),
         ],
-        required: vec!["aftermath_recovered", "reported_then_failed", "errors_to_other_handshakes", "errors_after_resultset_header", "golden_rows_checked", "client_crate_rows_checked", "anchors_checked"],
+        required: vec!["error_messages_beyond_one_packet", "aftermath_recovered", "reported_then_failed", "errors_to_other_handshakes", "errors_after_resultset_header", "golden_rows_checked", "client_crate_rows_checked", "anchors_checked"],
     }
 }
